@@ -28,9 +28,9 @@ class SimFile(object):
             if k == 'short_write':
                 keep = f.get('keep', 0.5)
                 cut = int(len(data) * keep)
-                self.pending.append(data[:cut]); self._flush()
+                self.pending.append(bytes(data[:cut]) if not isinstance(data, str) else data[:cut]); self._flush()
                 raise env.SimFault(5, 'injected short write')
-        self.pending.append(data)
+        self.pending.append(bytes(data) if isinstance(data, (memoryview, bytearray)) else data)
         if fs.unbuffered: self._flush()
         return len(data)
     def writelines(self, lines):
@@ -84,19 +84,32 @@ class SimFile(object):
     def name(self): return self.path
 
 
+def sim_open(path, mode='r', *a, **kw):
+    """the `open` planted in mystic's modules; resolves the active run's SimFS"""
+    run = env.CUR
+    if run is None or run.fs is None:
+        return _real_open(path, mode, *a, **kw)
+    return run.fs.open(path, mode, *a, **kw)
+
+
 class SimFS(object):
     MODULES = ('mystic.abstract_solver', 'mystic.solvers', 'mystic.monitors', 'mystic.munge')
     def __init__(self, run, unbuffered=False):
         self.run = run
         self.root = tempfile.mkdtemp(prefix='mysticsim-%d-' % os.getpid(), dir=SCRATCH_ROOT)
         self.frozen = False
+        self.subdir = ''
         self.unbuffered = unbuffered
         self.open_files = []
         self.durable_events = 0
         self.opens = 0
         self._planted = []
+    def __reduce__(self):
+        return (env._current_fs, ())
     def path(self, name):
-        return os.path.join(self.root, name)
+        d = os.path.join(self.root, self.subdir) if self.subdir else self.root
+        if not os.path.isdir(d): os.makedirs(d)
+        return os.path.join(d, name)
     def open(self, path, mode='r', *a, **kw):
         if self.frozen:
             raise env.SimCrash('open after crash')
@@ -130,7 +143,7 @@ class SimFS(object):
         for name in self.MODULES:
             m = importlib.import_module(name)
             self._planted.append((m, m.__dict__.get('open', None)))
-            m.open = self.open
+            m.open = sim_open      # a module-level function: picklable by reference
     def unplant(self):
         for m, old in self._planted:
             if old is None:
